@@ -17,10 +17,11 @@ const SEP_FLAG_MASK: u128 = 0x1fff << 32;
 const SEP_BYTE_MASK: u128 = 0xff << 64;
 
 /// catalogue entry with the same packed value minus separator flags and separator byte
-fn counterpart(entry: usize) -> Option<usize> {
+fn counterpart(entry: usize, ty: Ty) -> Option<usize> {
     let c = cat();
     let want = c.entries[entry].packed & !(SEP_FLAG_MASK | SEP_BYTE_MASK);
-    c.entries.iter().position(|e| e.packed == want && e.is_valid)
+    // several catalogue entries can share a packed value: take one that has a parser for the type
+    (0..c.entries.len()).find(|&i| c.entries[i].packed == want && c.entries[i].is_valid && has_type(i, ty))
 }
 
 pub fn lex_partial(entry: usize, ty: Ty, text: &[u8], o: &OptModel) -> POut {
@@ -72,6 +73,9 @@ pub fn check_input(entry: usize, ty: Ty, text: &[u8], l: &mut Local) -> CaseResu
     }
     let got = lex_complete(entry, ty, text, &o);
     l.eval(1);
+    if std::env::var_os("VERIF_DEBUG").is_some() {
+        eprintln!("c13 debug: {} {} {:?} -> {} counterpart {:?}", e.name, ty.name(), show(text), got.show(), counterpart(entry, ty).map(|i| cat().entries[i].name));
+    }
     let mk = |relation: &str, detail: String| {
         let msg = format!("{} {} [{}] input {:?}: {} — {}", ty.name(), e.name, m.describe(), show(text), relation, detail);
         match classify(m, ty, text, relation) {
@@ -147,8 +151,8 @@ pub fn check_input(entry: usize, ty: Ty, text: &[u8], l: &mut Local) -> CaseResu
     } else {
         l.class("input:separator-free");
         // relation (c): identical treatment by the separator-free counterpart format
-        if let Some(cp) = counterpart(entry) {
-            if has_type(cp, ty) {
+        if let Some(cp) = counterpart(entry, ty) {
+            {
                 let g2 = lex_complete(cp, ty, text, &o);
                 if g2 != got {
                     return Err(mk(
@@ -160,7 +164,17 @@ pub fn check_input(entry: usize, ty: Ty, text: &[u8], l: &mut Local) -> CaseResu
                 t2.push(junk);
                 let p1 = lex_partial(entry, ty, &t2, &o);
                 let p2 = lex_partial(cp, ty, &t2, &o);
-                if p1 != p2 {
+                // integers without any digit: the partial parser's Ok((0, n)) for sign-only /
+                // digit-less prefixes is the recorded C11 finding and depends on how the format
+                // counts digits; the separator relations say nothing about digit-less inputs
+                let no_digit_before = |p: &POut| match p {
+                    POut::Ok(_, n) | POut::Err(_, Some(n)) => !t2[..(*n).min(t2.len())].iter().any(|c| c.is_ascii_alphanumeric()),
+                    _ => false,
+                };
+                let digitless_int = matches!(ty, Ty::Int(_)) && no_digit_before(&p1) && no_digit_before(&p2);
+                if p1 != p2 && digitless_int {
+                    l.class("abstain:digit-less-integer-prefix(C11 finding)");
+                } else if p1 != p2 {
                     return Err(mk(
                         "(c, partial) separator-free input must be treated identically by the separator-free counterpart format",
                         format!("{}: {}; counterpart {}: {}", e.name, p1.show(), cat().entries[cp].name, p2.show()),
